@@ -1004,6 +1004,14 @@ def gen_meta(repo):
     if nums != list(range(len(nums))):
         raise ExtractError('PictureType: codes are not 0..n')
     out.append(f'/-- picture type codes 0..=this are defined -/\ndef pictureTypeMax : Nat := {nums[-1]}\n')
+    # the writer's table, each variant named by the code the READER gives it: (reader code, written code)
+    rd = {v: int(k) for k, v in re.findall(r'(\d+) => Ok\(Self::(\w+)\)', pt)}
+    wt = need(meta, r'impl ToBitStream for PictureType \{.*?w\.write_from::<u32>\(match self \{(.*?)\}\)', 'PictureType::to_writer').group(1)
+    wr = re.findall(r'Self::(\w+) => (\d+)', wt)
+    if sorted(v for v, _ in wr) != sorted(rd):
+        raise ExtractError('PictureType: writer and reader name different variants')
+    pairs = ', '.join(f'({rd[v]}, {c})' for v, c in sorted(wr, key=lambda x: rd[x[0]]))
+    out.append(f'/-- `PictureType::to_writer`: (code the reader maps to the variant, code the writer emits for it) -/\ndef pictureTypeWrite : List (Nat × Nat) := [{pairs}]\n')
     m = need(meta, r'picture_type: PictureType::Png32x32, \.\. \}\)\)\) => \{ if !self\.png_read', 'reader png rule')
     # cue sheet constants
     m = need(meta, r'const LEAD_IN: u64 = (\d+) \* (\d+);', 'Cuesheet::LEAD_IN')
